@@ -416,6 +416,7 @@ def main():
     ap.add_argument("--only", help="regex on instance names (debugging; evidence is marked partial)")
     ap.add_argument("--keep", action="store_true", help="keep the scratch directory")
     ap.add_argument("--no-evidence", action="store_true")
+    ap.add_argument("--codegen-only", action="store_true", help="developer option: only compile every harness instance of the tier (no solving)")
     args = ap.parse_args()
     seed = int(os.environ.get("VERIF_SEED", "0") or 0)
     pid = args.prop
@@ -457,6 +458,32 @@ def body(args, pid, P, seed, scratch, t_start):
         write_evidence(args, pid, P, tier, seed, insts, {}, [], [], t_start, fp, note="injection failed: %s" % e, extra={})
         return 2
     extra = inj.extra_evidence
+
+    if args.codegen_only:
+        bad = 0
+        builds = []
+        for i in insts:
+            key = (i.pkg, tuple(sorted(i.features)))
+            if key not in builds:
+                builds.append(key)
+        for (pkg, feats) in builds:
+            pin = [i for i in insts if i.pkg == pkg and tuple(sorted(i.features)) == feats]
+            tdir = os.path.join(scratch, "kt")
+            seed_target(tdir, "kani-target")
+            cmd = ["cargo", "kani", "-p", pkg, "--target-dir", tdir, "--only-codegen", "--exact"]
+            for i in pin:
+                cmd += ["--harness", i.full_name()]
+            if feats:
+                cmd += ["--features", ",".join(feats)]
+            if any("kani::stub" in a for i in pin for a in i.attrs):
+                cmd += ["-Z", "stubbing"]
+            logf = os.path.join(scratch, "codegen-%s.log" % pkg)
+            rc, to = run_cmd(cmd, ws, logf, timeout=3000)
+            txt = open(logf, errors="replace").read()
+            errs = re.findall(r"^error.*", txt, re.M)
+            log("[%s] codegen %s (%d harnesses, features=%s): rc=%d %s" % (pid, pkg, len(pin), list(feats), rc, errs[:3]))
+            bad += (rc != 0)
+        return 0 if bad == 0 else 2
 
     wd = MemWatchdog(scratch)
     wd.start()
